@@ -240,8 +240,9 @@ bool CellBounds(const vx::Cell& cell, int tier, vx::Bounds& b) {
     b.P = tier == 0 ? 2 : 3;
   } else {
     // two rounds: a failed Try* that leaves something behind needs a second acquisition to show (4 preemptions in the
-    // one seeded case found so far); calibrated: P=5 is ~12 k schedules per cell, all interleavings ~640 k
-    b.P = two_rounds ? (tier == 0 ? 5 : 99) : (tier == 0 ? 3 : 99);
+    // one seeded case found so far); calibrated: P=5 is ~12 k schedules per cell, all interleavings ~640 k, which
+    // did not finish for all option pairs x variants within the thorough budget: P=7 there
+    b.P = two_rounds ? (tier == 0 ? 5 : 7) : (tier == 0 ? 3 : 99);
   }
   b.S = 1;
   b.T = 0;
